@@ -264,7 +264,7 @@ def rule_ab(ctx):
                 fo.func_stack.append(f.node)
                 from ..fold import Obj
 
-                env = {"self": Obj("self", {"space_dim": d}), "__EXT__": [Poly.atom(f"E{c}") for c in range(d)]}
+                env = {"self": Obj("self", {"space_dim": d, "indexing": "ijk"[:d]}), "__EXT__": [Poly.atom(f"E{c}") for c in range(d)]}
                 try:
                     for st in stmts:
                         fo.stmt(st, env)
